@@ -256,7 +256,14 @@ let direct_check (sc : scen) (toks : string array) : dstate =
     | tid :: "WE" :: _ :: "m0" :: _ -> d.holder <- int_of_string tid
     | [_; "US"; "WD"; a; _] ->
       if not (List.mem (int_of_string a) d.je) then flag (Printf.sprintf "rendezvous on job %s returned before that job's body ended (token %d)" a idx)
-    | [_; "AR"; "a0"; o; nn] -> d.busyv <- int_of_string nn; if int_of_string nn = int_of_string o + 1 then d.pops <- d.pops + 1
+    | [_; "AR"; "a0"; o; nn] ->
+      d.busyv <- int_of_string nn;
+      if int_of_string nn = int_of_string o + 1 then begin
+        d.pops <- d.pops + 1;
+        (* terminate() / the destructor return once the RUNNING jobs finish: after terminate_ is set no queued job may be started
+           (both the store and the pop happen under the pool mutex, so their order in the trace is the real order) *)
+        if d.terms then flag (Printf.sprintf "a queued job was started after terminate_ was set (token %d): the backlog is drained instead of dropped" idx)
+      end
     | [_; "AR"; "a1"; _; nn] -> d.idlev <- int_of_string nn
     | [_; "AS"; "a3"; "1"] -> d.terms <- true
     | [tid; "US"; "CD"; a; _] ->
